@@ -51,6 +51,8 @@ def judge(rec):
         if len(bad):
             j = int(bad[0])
             c = _cls(rec, i) or _size_class(x, lo, up, j)
+            if np.isnan(x[j]) and i in rec.get('nan_sites', {}):
+                c = 'nan@%s' % rec['nan_sites'][i]          # which solver routine produced the NaN point
             viol.append(dict(signature='C01:eval_outside_bounds:%s' % c,
                              what='evaluation %d of %d: x[%d] = %r is outside [%r, %r]' % (i + 1, len(rec['calls']), j, float(x[j]), float(lo[j]), float(up[j])),
                              detail=dict(call=i + 1, coord=j, x=S.vh(x), lower=S.vh(lo), upper=S.vh(up))))
